@@ -227,117 +227,125 @@ def _cell_consumers(prog, body, src_bb):
     return out
 
 
+def _deep(events):
+    out = []
+    for x in events:
+        out.append(x)
+        if x[0] == "loop" and x[2] is not None:
+            out.extend(_deep(x[1].iters[x[2]].path.events))
+    return out
+
+
+def _table_recv(ev, t):
+    from . import semq as Q
+    f_, i_, base = Q.table_access(ev, t)
+    return Q.crate_fields(f_)[-1:] == [(A.WORLD, "resources")]
+
+
 def outcome(ctx, report, rule, facts, config):
-    """C08.OUTCOME: None only if absent; a refused borrow panics."""
-    prog = ctx.program(facts)
-    for name, borrow in (("try_fetch", "try_borrow"), ("try_fetch_mut", "try_borrow_mut")):
+    """C08.OUTCOME: None only if absent; a refused borrow panics; a guard only for a present, borrowed resource."""
+    from . import semq as Q
+    ast = A.RESID + "::assert_same_type_id"
+    for name, kinds in (("try_fetch", ("try_borrow",)), ("try_fetch_mut", ("try_borrow_mut",)), ("try_fetch_by_id", ("borrow",)), ("try_fetch_mut_by_id", ("borrow_mut",))):
         b = facts.one(A.WORLD + "::" + name)
         report.touched(b, config)
+        ev, ends = Q.sem(ctx, facts, A.WORLD + "::" + name, opaque=[ast, A.RESID + "::new"])
         problems = []
         n_some = n_none = n_panic = 0
-        for p in enumerate_paths(b, facts):
+        for e in ends:
             present = None
             borrowed = None
-            for (ct, cv, cn, cb) in p.conds:
-                if ct[0] == "discr" and ct[1][0] == "call":
-                    c = S.callee_at(b, ct[1][1])
-                    if c.name == "branch" and ct[1][2] and ct[1][2][0][0] == "call" and S.callee_at(b, ct[1][2][0][1]).name == "get":
-                        present = cn  # Continue / Break
-                    elif c.name == "get" and "HashMap" in c.path:
-                        present = {"Some": "Continue", "None": "Break"}.get(cn, cn)  # `match map.get(..)` form
-                    elif c.name == borrow:
-                        borrowed = cn  # Ok / Err
-            if p.end == "return":
-                r = p.ret
-                is_some = r[0] == "agg" and r[2] == "std::option::Option::Some"
-                if is_some:
+            lookup = None
+            for (ct, cv, cn, cs) in e.path.conds:
+                if ct[0] == "discr" and Q.is_call(ev, ct[1], "get") and _table_recv(ev, ct[1][2][0]):
+                    present = e.path.variant(ct[1])
+                    lookup = ct[1]
+                elif ct[0] == "discr" and Q.callee_of(ev, ct[1]) is not None and Q.callee_of(ev, ct[1]).name in ("try_borrow", "try_borrow_mut") and CELL in Q.callee_of(ev, ct[1]).path:
+                    borrowed = e.path.variant(ct[1])
+            cell = ("field", ("variant", lookup, "Some"), "0", "std::option::Option") if lookup is not None else None
+            hard = [x for x in _deep(e.path.events) if x[0] == "call" and x[2].name in ("borrow", "borrow_mut") and CELL in x[2].path and Q.strip(ev, x[3][0]) == cell]
+            if hard:
+                borrowed = "Ok"  # the panicking borrow returned
+            if e.kind == "return":
+                r = e.ret
+                if r[0] == "agg" and r[2] == "std::option::Option::Some":
                     n_some += 1
-                    if present != "Continue" or borrowed != "Ok":
+                    if present != "Some" or borrowed != "Ok":
                         problems.append("Some(..) is returned without a present resource and a granted borrow")
-                else:
+                    g = r[3][0]
+                    if not (g[0] == "agg" and g[2] in (A.FETCH + "::Fetch", A.FETCHMUT + "::FetchMut")):
+                        problems.append("what is returned for a present resource is not a guard")
+                elif r[0] == "agg" and r[2] == "std::option::Option::None":
                     n_none += 1
-                    if present != "Break":
-                        problems.append("None (or a non-guard value) is returned although the resource is present (present=%s, borrow=%s)" % (present, borrowed))
-            elif p.end == "diverge":
+                    if present != "None":
+                        problems.append("None is returned although the resource is present (present=%s, borrow=%s)" % (present, borrowed))
+                else:
+                    problems.append("the result is not decided by the lookup")
+            elif e.kind == "diverge":
                 n_panic += 1
-                if not (present == "Continue" and borrowed == "Err"):
+                if not (present == "Some" and borrowed == "Err"):
                     problems.append("panics on a path other than (present, borrow refused)")
-        if not (n_some == 1 and n_none == 1 and n_panic >= 1):
-            problems.append("expected one Some path, one None path and a panic path; found %d/%d/%d" % (n_some, n_none, n_panic))
+        if not (n_some >= 1 and n_none >= 1 and (n_panic >= 1 or not kinds[0].startswith("try_"))):
+            problems.append("expected a Some path, a None path%s; found %d/%d/%d" % (" and a panic path" if kinds[0].startswith("try_") else "", n_some, n_none, n_panic))
         report.ob(rule, name, not problems, "; ".join(sorted(set(problems))) if problems else
-                  "absent -> None; present and %s refused -> panic; present and granted -> Some(guard)" % borrow, site=b.loc(), config=config)
-    for name, borrow in (("try_fetch_by_id", "borrow"), ("try_fetch_mut_by_id", "borrow_mut")):
-        b = facts.one(A.WORLD + "::" + name)
-        report.touched(b, config)
-        bt = prog.bt(b)
-        ret = bt.local(0)
-        ok = ret[0] == "call" and bt.callee(ret[1]).name == "map" and "Option" in bt.callee(ret[1]).path and ret[2][0][0] == "call" and bt.callee(ret[2][0][1]).name == "get"
-        clos = facts.closures_of(b, False)
-        if ok and len(clos) == 1:
-            names = [Callee(t["func"]).name for bb, t in clos[0].normal_calls()]
-            ok = names[:1] == [borrow] and not any(n.startswith("try_") for n in names)
-            # closure always builds a guard
-            r = prog.bt(clos[0]).local(0)
-            ok = ok and r[0] == "agg" and r[2] in (A.FETCH + "::Fetch", A.FETCHMUT + "::FetchMut")
-        elif not clos:
-            # `match self.resources.get(&id) { Some(r) => Some(guard(r.borrow())), None => None }`
-            try:
-                ps = [p for p in enumerate_paths(b, facts) if p.end == "return"]
-            except Exception:
-                ps = []
-            ok = len(ps) == 2
-            borrows = [Callee(t["func"]).name for bb, t in b.normal_calls() if Callee(t["func"]).name in SHARED_BORROWS | EXCL_BORROWS]
-            ok = ok and borrows == [borrow]
-            for p in ps:
-                pres = None
-                for (ct, cv, cn, cb) in p.conds:
-                    if ct[0] == "discr" and ct[1][0] == "call" and S.callee_at(b, ct[1][1]).name == "get":
-                        pres = cn
-                some = p.ret[0] == "agg" and p.ret[2] == "std::option::Option::Some"
-                if (pres == "Some") != some or pres is None:
-                    ok = False
-        else:
-            ok = False
-        report.ob(rule, name, ok, "get(&id).map(|cell| guard(cell.%s())): None only when absent, a refused borrow panics inside %s" % (borrow, borrow) if ok else
-                  "%s does not map the looked-up cell through the panicking `%s`" % (name, borrow), site=b.loc(), config=config)
+                  "absent -> None; present and borrow refused -> panic; present and granted -> Some(guard)", site=b.loc(), config=config)
     # every use of the non-panicking borrow API in the crate: a refused borrow must end in a panic, never in a value
     n_try = 0
+    roots = {}
     for b in sorted(facts.bodies.values(), key=lambda b: b.key):
         tries = [bb for bb, t in b.normal_calls() if Callee(t["func"]).name in ("try_borrow", "try_borrow_mut") and CELL in Callee(t["func"]).path]
         if not tries:
             continue
         n_try += len(tries)
-        bt = prog.bt(b)
+        r = b
+        while r.is_closure and r.parent_key in facts.bodies:
+            r = facts.bodies[r.parent_key]
+        roots.setdefault(r.key, (r, b.loc(tries[0])))
+    for key, (r, site) in sorted(roots.items()):
         problems = []
-        for bb, t in b.normal_calls():
-            c = Callee(t["func"])
-            for a in bt.call_args(bb):
-                if isinstance(a, tuple) and a[:1] == ("call",) and a[1] in tries and c.name not in ("unwrap", "expect"):
-                    problems.append("the result of %s is handed to `%s`" % (Callee(b.blocks[a[1]]["term"]["func"]).name, c.name))
         try:
-            for p in enumerate_paths(b, facts):
-                for (ct, cv, cn, cb) in p.conds:
-                    if ct[0] == "discr" and ct[1][0] == "call" and ct[1][1] in tries and cn == "Err" and p.end == "return":
+            ev, ends = Q.sem(ctx, facts, r, opaque=[ast, A.RESID + "::new"])
+            for e in ends:
+                for (ct, cv, cn, cs) in e.path.conds:
+                    c = Q.callee_of(ev, ct[1]) if ct[0] == "discr" else None
+                    if c is not None and c.name in ("try_borrow", "try_borrow_mut") and CELL in c.path and e.path.variant(ct[1]) == "Err" and e.kind == "return":
                         problems.append("a refused borrow (Err arm) reaches a normal return")
-        except Exception as e:
-            problems.append("cannot enumerate the paths around try_borrow (%s)" % type(e).__name__)
-        report.ob(rule, "refused-borrow-panics/%s" % b.qname, not problems,
-                  "; ".join(sorted(set(problems))) if problems else "a refused try_borrow ends in a panic on every path", site=b.loc(tries[0]), config=config)
+                for x in _deep(e.path.events):
+                    if x[0] == "call":
+                        for a in x[3]:
+                            ac = Q.callee_of(ev, Q.strip(ev, a))
+                            if ac is not None and ac.name in ("try_borrow", "try_borrow_mut") and CELL in ac.path:
+                                problems.append("the result of %s is handed to `%s`" % (ac.name, x[2].name))
+        except Exception as e_:
+            problems.append("cannot tabulate the paths around try_borrow (%s)" % type(e_).__name__)
+        report.ob(rule, "refused-borrow-panics/%s" % r.qname, not problems,
+                  "; ".join(sorted(set(problems))) if problems else "a refused try_borrow ends in a panic on every path", site=site, config=config)
     report.floor(rule, "try_borrow call sites", n_try, 2, config=config)
     for name, inner in (("fetch", "try_fetch"), ("fetch_mut", "try_fetch_mut")):
         b = facts.one(A.WORLD + "::" + name)
+        ib = facts.one(A.WORLD + "::" + inner)
         report.touched(b, config)
-        bt = prog.bt(b)
-        ret = bt.local(0)
-        ok = (ret[0] == "call" and bt.callee(ret[1]).name == "unwrap_or_else" and ret[2][0][0] == "call" and bt.callee(ret[2][0][1]).name == inner
-              and bt.callee(ret[2][0][1]).self_head == A.WORLD)
-        clos = facts.closures_of(b, False)
-        if ok and len(clos) == 1:
-            ps = enumerate_paths(clos[0], facts)
-            ok = all(p.end == "diverge" for p in ps)
-        else:
-            ok = False
-        report.ob(rule, name, ok, "%s().unwrap_or_else(|| panic)" % inner if ok else "%s does not turn an absent resource into a panic" % name, site=b.loc(), config=config)
+        ev, ends = Q.sem(ctx, facts, A.WORLD + "::" + name, opaque=[ib.key])
+        problems = []
+        n_ret = n_pan = 0
+        for e in ends:
+            tf = [x for x in e.path.events if x[0] == "call" and x[2].key == ib.key]
+            if len(tf) != 1 or tf[0][3][0] != SELF:
+                problems.append("%s is not asked exactly once about self" % inner)
+                continue
+            v = e.path.variant(tf[0][4])
+            if e.kind == "return":
+                n_ret += 1
+                if v != "Some" or Q.strip(ev, e.ret) != ("field", ("variant", tf[0][4], "Some"), "0", "std::option::Option"):
+                    problems.append("a value is returned that is not the guard %s found" % inner)
+            elif e.kind == "diverge":
+                n_pan += 1
+                if v != "None":
+                    problems.append("panics although the resource was found")
+        if not (n_ret >= 1 and n_pan >= 1):
+            problems.append("expected a returning and a panicking path, found %d/%d" % (n_ret, n_pan))
+        report.ob(rule, name, not problems, "%s(): Some(guard) -> guard, None -> panic" % inner if not problems else
+                  "%s does not turn an absent resource into a panic: %s" % (name, "; ".join(sorted(set(problems)))), site=b.loc(), config=config)
 
 
 NORMALISE = [("try_borrow_mut", "try_borrow*"), ("try_borrow", "try_borrow*"), ("borrow_mut", "borrow*"), ("borrow", "borrow*"),
@@ -460,24 +468,39 @@ def assert_rules(ctx, report, rule, facts, config):
                   site=b.loc(), config=config)
     report.floor(rule, "id-taking typed World methods", n, 4, config=config)
     report.touched(ast, config)
-    ps = enumerate_paths(ast, facts)
-    ok = len(ps) == 2
-    for p in ps:
-        conds = [(ct, cv) for (ct, cv, cn, cb) in p.conds]
-        if len(conds) != 1:
-            ok = False
-            continue
-        ct, cv = conds[0]
-        okc = (ct[0] == "call" and S.callee_at(ast, ct[1]).name == "eq" and "TypeId" in S.callee_at(ast, ct[1]).inst_path)
-        if okc:
-            a, b_ = ct[2]
-            fields = sorted([(x[2], x[1][0] if isinstance(x[1], tuple) else None) for x in (a, b_) if x[0] == "field"])
-            okc = fields == [("type_id", "call"), ("type_id", "param")] or fields == [("type_id", "call"), ("type_id", "param")]
-            calls = [x[1] for x in (a, b_) if x[0] == "field" and isinstance(x[1], tuple) and x[1][0] == "call"]
-            okc = okc and len(calls) == 1 and S.callee_at(ast, calls[0][1]).name == "new" and _type_args(S.callee_at(ast, calls[0][1])) == ["R"]
-        ok = ok and okc and ((cv == 1 and p.end == "return") or (cv == 0 and p.end == "diverge"))
-    report.ob(rule, "assert_same_type_id/body", ok, "returns iff ResourceId::new::<R>().type_id == self.type_id, else panics" if ok else
-              "assert_same_type_id does not compare the type ids of ResourceId::new::<R>() and self (or does not panic on mismatch)", site=ast.loc(), config=config)
+    from . import semq as Q
+    ev, ends = Q.sem(ctx, facts, A.RESID + "::assert_same_type_id")
+
+    def is_r(x):
+        return Q.is_call(ev, x, "of") and "TypeId" in Q.callee_of(ev, x).path and ev.targs(x) == ["R"]
+
+    pr = []
+    n_ret = n_pan = 0
+    for e in ends:
+        verdict = None
+        for (ct, cv, cn, cs) in e.path.conds:
+            c = Q.callee_of(ev, ct)
+            if c is not None and c.name in ("eq", "ne") and "TypeId" in c.inst_path and len(ct[2]) == 2:
+                a, b_ = Q.strip(ev, ct[2][0]), Q.strip(ev, ct[2][1])
+                own = [x for x in (a, b_) if x == ("field", ("param", 1), "type_id", A.RESID)]
+                of = [x for x in (a, b_) if is_r(x)]
+                if len(own) == 1 and len(of) == 1:
+                    verdict = (cv == 1) if c.name == "eq" else (cv == 0)
+                else:
+                    pr.append("the comparison is not between TypeId::of::<R>() and self.type_id")
+            elif ct[0] in ("call", "bin"):
+                pr.append("the verdict depends on something else than the type ids")
+        if e.kind == "return":
+            n_ret += 1
+            if verdict is not True:
+                pr.append("returns without the type ids being equal")
+        elif e.kind == "diverge":
+            n_pan += 1
+            if verdict is not False:
+                pr.append("panics although the type ids agree")
+    ok = not pr and n_ret >= 1 and n_pan >= 1
+    report.ob(rule, "assert_same_type_id/body", ok, "returns iff TypeId::of::<R>() == self.type_id, else panics" if ok else
+              "assert_same_type_id does not compare the type ids of R and self (or does not panic on mismatch): %s" % "; ".join(sorted(set(pr))), site=ast.loc(), config=config)
 
 
 def insert_rules(ctx, report, rule, facts, config):
@@ -495,41 +518,22 @@ def insert_rules(ctx, report, rule, facts, config):
             is_table = "AtomicRefCell<std::boxed::Box<dyn shred::world::Resource" in ty or "AtomicRefCell<std::boxed::Box<dyn shred::world::Resource" in c.inst_path
             if not is_table or c.name not in ("insert", "or_insert_with", "or_insert", "entry", "try_insert", "or_default", "insert_entry", "extend"):
                 continue
+            if c.name == "insert" and "VacantEntry" in c.path:
+                n += 1
+                ok = b.qname == A.ENTRY + "::or_insert_with" and _stores_ok(ctx, facts, b, "vacant")
+                report.ob(rule, "stores/%s" % b.qname, ok, "vacant entry of Entry<T> receives AtomicRefCell::new(Box::<T>::new(f()))" if ok else "a vacant entry of the resource table is filled in %s with a value of another type" % b.qname, site=b.loc(bb), config=config)
+                continue
             n += 1
             args = bt.call_args(bb)
             if c.name == "insert":
-                ok = b.qname == A.WORLD + "::insert_by_id"
-                if ok:
-                    key, val = args[1], args[2]
-                    okv = (val[0] == "call" and bt.callee(val[1]).name == "new" and CELL in bt.callee(val[1]).path)
-                    boxed = val[2][0] if okv else None
-                    while isinstance(boxed, tuple) and boxed[0] == "cast":
-                        boxed = boxed[2]
-                    okv = okv and boxed[0] == "call" and bt.callee(boxed[1]).name == "new" and "Box" in bt.callee(boxed[1]).path and _type_args(bt.callee(boxed[1])) == ["R"] and boxed[2] == (("param", 3),)
-                    ok = okv and key == ("param", 2)
+                ok = b.qname == A.WORLD + "::insert_by_id" and _stores_ok(ctx, facts, b, "insert")
                 report.ob(rule, "stores/%s" % b.qname, ok, "resources.insert(id, AtomicRefCell::new(Box::<R>::new(r))) with the asserted id" if ok else
                           "resource table insertion in %s does not store Box::<R>::new(r) under the asserted id" % b.qname, site=b.loc(bb), config=config)
             elif c.name == "entry":
-                ok = b.qname == A.WORLD + "::entry" and args[1][0] == "call" and bt.callee(args[1][1]).name == "new" and bt.callee(args[1][1]).self_head == A.RESID and _type_args(bt.callee(args[1][1])) == ["R"]
-                # and the typed Entry<R> is built from it
-                ret = bt.local(0)
-                ok = ok and ret[0] == "call" and bt.callee(ret[1]).name == "create_entry" and _type_args(bt.callee(ret[1])) == ["R"] and ret[2][0][:2] == ("call", bb)
+                ok = b.qname == A.WORLD + "::entry" and _stores_ok(ctx, facts, b, "entry")
                 report.ob(rule, "stores/%s" % b.qname, ok, "Entry<R> wraps resources.entry(ResourceId::new::<R>())" if ok else "World::entry does not key the entry by its own type", site=b.loc(bb), config=config)
-            elif c.name == "or_insert_with":
-                ok = b.qname == A.ENTRY + "::or_insert_with"
-                clos = facts.closures_of(b, False)
-                if ok and len(clos) == 1:
-                    cb = clos[0]
-                    cbt = prog.bt(cb)
-                    r = cbt.local(0)
-                    okc = r[0] == "call" and cbt.callee(r[1]).name == "new" and CELL in cbt.callee(r[1]).path
-                    boxed = r[2][0] if okc else None
-                    while isinstance(boxed, tuple) and boxed[0] == "cast":
-                        boxed = boxed[2]
-                    okc = okc and boxed[0] == "call" and "Box" in cbt.callee(boxed[1]).path and _type_args(cbt.callee(boxed[1])) == ["T"]
-                    ok = okc
-                else:
-                    ok = False
+            elif c.name in ("or_insert_with", "or_insert"):
+                ok = b.qname == A.ENTRY + "::or_insert_with" and _stores_ok(ctx, facts, b, "vacant")
                 report.ob(rule, "stores/%s" % b.qname, ok, "vacant entry of Entry<T> receives AtomicRefCell::new(Box::<T>::new(f()))" if ok else "Entry::or_insert_with stores a value of another type", site=b.loc(bb), config=config)
             else:
                 report.ob(rule, "stores/%s/%s" % (b.qname, c.name), False, "unaudited insertion into the resource table through `%s`" % c.name, site=b.loc(bb), config=config)
@@ -597,6 +601,78 @@ def insert_rules(ctx, report, rule, facts, config):
     a = facts.adt(A.RESID)
     fl = [f["name"] for v in a["variants"] for f in v["fields"]]
     report.ob(rule, "ResourceId/fields", fl == ["type_id", "dynamic_id"], "fields %s" % fl, config=config)
+
+
+def _boxed_as(ev, val, ty, inner_ok):
+    """val is AtomicRefCell::new(Box::<ty>::new(x)) (unsizing casts allowed) with inner_ok(x)."""
+    from . import semq as Q
+    if not (Q.is_call(ev, val, "new") and CELL in Q.callee_of(ev, val).path):
+        return False
+    boxed = val[2][0]
+    while isinstance(boxed, tuple) and boxed[0] == "cast":
+        boxed = boxed[2]
+    return bool(Q.is_call(ev, boxed, "new") and "Box" in Q.callee_of(ev, boxed).path and ev.targs(boxed)[:1] == [ty] and inner_ok(boxed[2][0]))
+
+
+def _stores_ok(ctx, facts, b, what):
+    """The audited insertion sites, stated over the structured evaluation of their function."""
+    from . import semq as Q
+    ast = A.RESID + "::assert_same_type_id"
+    try:
+        if what == "insert":
+            ev, ends = Q.sem(ctx, facts, b, opaque=[ast])
+            n = 0
+            for e in ends:
+                if e.kind != "return":
+                    continue
+                ins = [x for x in _deep(e.path.events) if x[0] == "call" and x[2].name == "insert" and not x[2].local and _table_recv(ev, x[3][0])]
+                if len(ins) != 1:
+                    return False
+                key, val = ins[0][3][1], ins[0][3][2]
+                if Q.strip(ev, key) != ("param", 2) or not _boxed_as(ev, val, "R", lambda x: x == ("param", 3)):
+                    return False
+                n += 1
+            return n >= 1
+        if what == "entry":
+            ce = facts.one(A.C + "::world::entry::create_entry")
+            ev, ends = Q.sem(ctx, facts, b, opaque=[ce.key, A.RESID + "::new"])
+            n = 0
+            for e in ends:
+                if e.kind != "return":
+                    continue
+                ents = [x for x in e.path.events if x[0] == "call" and x[2].name == "entry" and not x[2].local and _table_recv(ev, x[3][0])]
+                if len(ents) != 1:
+                    return False
+                k = Q.strip(ev, ents[0][3][1])
+                if not (Q.is_call(ev, k, "new") and Q.callee_of(ev, k).self_head == A.RESID and ev.targs(k) == ["R"]):
+                    return False
+                r = e.ret
+                if not (Q.is_call(ev, r, "create_entry") and ev.targs(r)[:1] == ["R"] and Q.strip(ev, r[2][0]) == ents[0][4]):
+                    return False
+                n += 1
+            return n >= 1
+        if what == "vacant":
+            ev, ends = Q.sem(ctx, facts, b)
+            n = 0
+            for e in ends:
+                if e.kind != "return":
+                    continue
+                vin = [x for x in _deep(e.path.events) if x[0] == "call" and x[2].name == "insert" and "VacantEntry" in x[2].path]
+                tabins = [x for x in _deep(e.path.events) if x[0] == "call" and x[2].name in ("insert", "or_insert", "or_default", "insert_entry") and not x[2].local and "VacantEntry" not in x[2].path
+                          and ("hash_map" in x[2].path or "HashMap" in x[2].path)]
+                if tabins:
+                    return False
+                for x in vin:
+                    src = Q.strip(ev, x[3][0])
+                    if not (src == ("field", ("variant", ("field", ("param", 1), "inner", A.ENTRY), "Vacant"), "0", "std::collections::hash_map::Entry")):
+                        return False
+                    if not _boxed_as(ev, x[3][1], "T", lambda v: Q.callee_of(ev, v) is not None and Q.callee_of(ev, v).name in ("call_once", "<indirect>") and ("param", 2) in (v[2][:1] or ())):
+                        return False
+                    n += 1
+            return n >= 1
+    except Exception:
+        return False
+    return False
 
 
 def _typed_lookup(prog, facts, body, st):
